@@ -27,8 +27,8 @@ CLAIMED = {
           "(DATA bodies with look-alikes x backend behaviours x limits x SMTP/LMTP) and correspondence with the server model.",
           "DESIGN.md 7 C02", "Lean 4 proof (reader, server+wire model) + monitors and differential correspondence (dr, conv probes)",
           "C02_resume is stated for the synchronous delivery of the model (the LMTPSession goroutine's interleavings are sequentialised, "
-          "tied by the conv/sched probes); its hypothesis WF (non-empty segments, errors latched only at the end of the source) is assumed "
-          "of the wire at DATA time, not yet proved as a whole-connection invariant"),
+          "tied by the conv/sched probes); its hypothesis WF (non-empty segments, errors latched only at the end of the source) is proved to be an "
+          "invariant of the whole connection (C02_wf_invariant: readLine, every handler, serve), so only non-empty network segments are assumed"),
  "C03": C("Proved: order_accepts_every_connection / C03_order - for EVERY input octet stream in EVERY segmentation, EVERY backend script "
           "(acceptances, refusals, errors, panics, early returns, SASL scripts, handshake outcomes) and EVERY configuration, the complete "
           "backend-visible trace of a connection of the server model (greeting, command loop, all handlers incl. DATA, BDAT, AUTH, STARTTLS, "
